@@ -23,9 +23,15 @@ class Fragments:
         #if position in self.fragments:
         #   raise Exception("Collision detected at %08x" % position)
 
-        i = bisect_right(self.begin_of_fragments, position) - 1
         L = len(string)
-        if self.fragments:
+        if not L:
+            # an empty chunk occupies no byte: it only extends the extent
+            self.fragments.setdefault(position, string)
+            self.current_offset = position
+            return
+
+        i = bisect_right(self.begin_of_fragments, position) - 1
+        if self.begin_of_fragments:
             b1 = self.begin_of_fragments[i]
             e1 = b1 + len(self.fragments[b1])
 
@@ -56,7 +62,7 @@ class Fragments:
         for offset, s in sorted(self.fragments.items()):
             result.append(self.fill * (offset - begin))
             result.append(s)
-            begin = offset + len(s)
+            begin = max(begin, offset + len(s))
 
         return b''.join(result)
 
@@ -104,7 +110,8 @@ class FragmentsOfRegexps(Fragments):
 
         Fragments.insert(self, position, string)
 
-        self.regexp_by_position[position] = regexp
+        if string or position not in self.regexp_by_position:
+            self.regexp_by_position[position] = regexp
 
     def assemble_regexp(self):
         begin = 0
@@ -117,6 +124,6 @@ class FragmentsOfRegexps(Fragments):
                 result.append(("(?:.{%i})" % hole_length).encode('ascii'))
 
             result.append(regexp)
-            begin = offset + len(string)
+            begin = max(begin, offset + len(string))
 
         return b''.join(result)
